@@ -12,6 +12,7 @@ use slotted_egraphs::*;
 use std::collections::{BTreeMap, BTreeSet, HashMap};
 use std::sync::atomic::{AtomicUsize, Ordering};
 use std::sync::{Arc, Mutex};
+use verif_harness::costs::*;
 use verif_harness::langs::T;
 use verif_harness::obs::*;
 use verif_harness::term::*;
@@ -33,6 +34,42 @@ struct SpecObs {
     ncls: usize,
     slots: Vec<Vec<u32>>,
     syms: Vec<usize>,
+    cost: Vec<Vec<u64>>,
+}
+
+/// the two analyses the paths are run with
+trait AnKind: Analysis<T> + Default + 'static {
+    const NAME: &'static str;
+    fn datum(eg: &EGraph<T, Self>, id: Id) -> Option<(u64, u64)>;
+    fn multi(eg: &EGraph<T, Self>, pat: &MultiPattern<T>) -> Option<Vec<Subst>>;
+}
+impl AnKind for () {
+    const NAME: &'static str = "unit";
+    fn datum(_: &EGraph<T, ()>, _: Id) -> Option<(u64, u64)> { None }
+    fn multi(eg: &EGraph<T, ()>, pat: &MultiPattern<T>) -> Option<Vec<Subst>> { Some(multi_ematch(pat, eg)) }
+}
+impl AnKind for SizeDepth {
+    const NAME: &'static str = "size-depth";
+    fn datum(eg: &EGraph<T, SizeDepth>, id: Id) -> Option<(u64, u64)> { Some(*eg.analysis_data(id)) }
+    fn multi(_: &EGraph<T, SizeDepth>, _: &MultiPattern<T>) -> Option<Vec<Subst>> { None }
+}
+
+const PATTERNS: [&str; 18] = [
+    "?a", "(g ?a)", "(h ?a ?b)", "(h ?a ?a)", "(f {1} {2})", "(f {1} {1})", "(f3 {1} {2} {3})", "(v {1})",
+    "(lam {1} ?a)", "(g (f {1} {2}))", "(h (f {1} {2}) ?b)", "(h (f {1} {2}) (f {2} {3}))", "(lam {1} (f {1} {2}))",
+    "(lam {1} (f {2} {1}))", "(let {1} ?a ?b)", "(k ?a {1} ?b)", "(sum ?a {1} {2} ?b)", "(g (g ?a))",
+];
+const MULTIPATTERNS: [&str; 5] = [
+    "?x == (h ?a ?b), ?a == (f {1} {2})", "?x == (g ?a), ?a == (g ?b)", "?x == (h ?a ?a)", "?x == (f {1} {2})",
+    "?x == (h ?a ?b), ?b == (v {1}), ?a == (f {1} {2})",
+];
+
+fn concrete(text: &str, nm: &Naming) -> String {
+    let mut t = text.to_string();
+    for k in 1..=3u32 {
+        t = t.replace(&format!("{{{k}}}"), &nm.slot(k).to_string());
+    }
+    t
 }
 
 #[derive(Deserialize)]
@@ -71,6 +108,9 @@ struct Stats {
     panics: usize,
     comparisons: usize,
     readds: usize,
+    extractions: usize,
+    data: usize,
+    matches: usize,
 }
 
 #[derive(Clone, PartialEq, Eq, Debug)]
@@ -122,7 +162,7 @@ impl<'a> PathRun<'a> {
     }
 
     /// returns the fingerprint of the final state if the path completed
-    fn run(&mut self, path: &[(usize, bool)]) -> Option<Fingerprint> {
+    fn run<N: AnKind>(&mut self, path: &[(usize, bool)]) -> Option<Fingerprint> {
         let ctx = self.ctx;
         self.stats.paths += 1;
         let full_key: Vec<usize> = {
@@ -130,7 +170,7 @@ impl<'a> PathRun<'a> {
             k.sort();
             k
         };
-        let mut eg: EGraph<T> = EGraph::default();
+        let mut eg: EGraph<T, N> = EGraph::default();
         let mut handles: Vec<(usize, AppliedId)> = Vec::new(); // (universe idx, invocation)
         let mut prev_obs: Option<ImplObs> = None;
         let mut prev_progress = progress_of(&eg);
@@ -299,8 +339,11 @@ impl<'a> PathRun<'a> {
             let is_final = step + 1 == path.len();
             let lazy = self.mode == "lazy" || is_final;
             self.compare(spec, &obs, &eg, &key, path, step + 1, lazy);
+            self.check_analysis(spec, &obs, &eg, &key, path, step + 1);
             if is_final {
                 final_fp = Some(self.fingerprint(&obs, &eg));
+                self.check_matching(spec, &obs, &eg, &key, path, step + 1);
+                self.check_extraction(spec, &obs, &eg, &key, path, step + 1);
                 self.readd(spec, &obs, &mut eg, &key, path, step + 1);
             }
             prev_obs = Some(obs);
@@ -308,7 +351,7 @@ impl<'a> PathRun<'a> {
         final_fp
     }
 
-    fn fingerprint(&self, obs: &ImplObs, eg: &EGraph<T>) -> Fingerprint {
+    fn fingerprint<N: AnKind>(&self, obs: &ImplObs, eg: &EGraph<T, N>) -> Fingerprint {
         let ctx = self.ctx;
         let mut slots = Vec::new();
         let mut syms = Vec::new();
@@ -327,11 +370,11 @@ impl<'a> PathRun<'a> {
         Fingerprint { cls: obs.cls.clone(), nlive: obs.nlive, slots, syms }
     }
 
-    fn compare(
+    fn compare<N: AnKind>(
         &mut self,
         spec: &SpecObs,
         obs: &ImplObs,
-        eg: &EGraph<T>,
+        eg: &EGraph<T, N>,
         key: &[usize],
         path: &[(usize, bool)],
         step: usize,
@@ -438,11 +481,176 @@ impl<'a> PathRun<'a> {
 
     /// C09 at the final state: inserting represented terms creates nothing and agrees with
     /// lookup; renaming the term renames the result.
-    fn readd(
+    /// C14: the datum of every class is the least fixpoint of make/merge = the specification's
+    /// MinCost for astsize and depth; equal classes share one datum (read through any handle).
+    fn check_analysis<N: AnKind>(&mut self, spec: &SpecObs, obs: &ImplObs, eg: &EGraph<T, N>, key: &[usize], path: &[(usize, bool)], step: usize) {
+        let ctx = self.ctx;
+        for i in 0..ctx.us.len() {
+            let Some(a) = &obs.found[i] else { continue };
+            if spec.lab[i] == 0 { continue; }
+            let id = a.id;
+            let Ok(d) = guard(|| N::datum(eg, id)) else {
+                self.finding("C14", "panic reading analysis data", key, path, step, "", json!({"term": ctx.us[i].show()}));
+                return;
+            };
+            let Some((size, depth)) = d else { return };
+            self.stats.data += 1;
+            let want = (spec.cost[0][i], spec.cost[3][i]);
+            if (size, depth) != want {
+                self.finding("C14", "analysis datum is not the fixpoint of make/merge over the class", key, path, step, "",
+                    json!({"term": ctx.us[i].show(), "impl_size_depth": [size, depth], "spec_size_depth": [want.0, want.1]}));
+                return;
+            }
+        }
+    }
+
+    /// C06: extraction from every represented invocation with three strictly monotone cost functions
+    fn check_extraction<N: AnKind>(&mut self, spec: &SpecObs, obs: &ImplObs, eg: &EGraph<T, N>, key: &[usize], path: &[(usize, bool)], step: usize) {
+        let ctx = self.ctx;
+        for (ci, cname) in COST_NAMES.iter().enumerate().take(3) {
+            let cname: &'static str = cname;
+            let ex = match guard(|| Extractor::<T, NamedCost>::new(eg, NamedCost(cname))) {
+                Ok(e) => e,
+                Err(p) => {
+                    self.stats.panics += 1;
+                    self.finding("C06", "Extractor::new panics", key, path, step, &site_key(&p), json!({"msg": p.msg, "cost_fn": cname}));
+                    return;
+                }
+            };
+            for i in 0..ctx.us.len() {
+                let Some(a) = &obs.found[i] else { continue };
+                if spec.lab[i] == 0 { continue; }
+                self.stats.extractions += 1;
+                let r = guard(|| {
+                    let t = ex.extract(a, eg);
+                    let best = ex.get_best_cost::<N>(&eg.find_applied_id(a));
+                    let c = NamedCost(cname).cost_rec(&t);
+                    let back = lookup_rec_expr(&t, eg);
+                    let same = back.as_ref().map(|b| eg.eq(b, a));
+                    (t, best, c, same)
+                });
+                match r {
+                    Err(p) => {
+                        self.stats.panics += 1;
+                        self.finding("C06", "extract panics", key, path, step, &site_key(&p),
+                            json!({"msg": p.msg, "cost_fn": cname, "term": ctx.us[i].show(), "class_slots": a.slots().len(), "term_fv": ctx.us[i].fv().len()}));
+                        return;
+                    }
+                    Ok((t, best, c, same)) => {
+                        if same != Some(true) {
+                            self.finding("C06", "extracted term is not represented in the queried invocation", key, path, step, "",
+                                json!({"query": ctx.us[i].show(), "extracted": t.to_string(), "lookup": format!("{same:?}"), "cost_fn": cname}));
+                            return;
+                        }
+                        if c != best {
+                            self.finding("C06", "recomputed cost of the extracted term differs from the reported best cost", key, path, step, "",
+                                json!({"query": ctx.us[i].show(), "extracted": t.to_string(), "recomputed": c, "reported": best, "cost_fn": cname}));
+                            return;
+                        }
+                        if best != spec.cost[ci][i] {
+                            self.finding("C06", "extracted cost is not the minimum over the class", key, path, step, "",
+                                json!({"query": ctx.us[i].show(), "extracted": t.to_string(), "impl": best, "spec_min": spec.cost[ci][i], "cost_fn": cname}));
+                            return;
+                        }
+                        // free slots: arguments of the query or brand-new
+                        let mut bn = BackNamer::new(self.nm, 900);
+                        let tt = bn.term(&t);
+                        let args: Vec<Option<u32>> = a.slots().iter().map(|s| self.nm.name(*s)).collect();
+                        for x in tt.fv() {
+                            if x < 900 && !args.contains(&Some(x)) {
+                                self.finding("C06", "extracted term has a free user slot that is not an argument of the query", key, path, step, "",
+                                    json!({"query": ctx.us[i].show(), "extracted": tt.show(), "cost_fn": cname}));
+                                return;
+                            }
+                        }
+                    }
+                }
+            }
+        }
+    }
+
+    /// C05: every reported match binds all variables and denotes a represented term; matching
+    /// changes nothing observable.
+    fn check_matching<N: AnKind>(&mut self, _spec: &SpecObs, obs: &ImplObs, eg: &EGraph<T, N>, key: &[usize], path: &[(usize, bool)], step: usize) {
+        let ctx = self.ctx;
+        let before = (obs.progress, obs.nnodes);
+        let reps = match guard(|| representatives(eg)) {
+            Ok(r) => r,
+            Err(p) => { self.finding("C08", "panic in enodes()", key, path, step, &site_key(&p), json!({"msg": p.msg})); return; }
+        };
+        for ptxt in PATTERNS.iter() {
+            let txt = concrete(ptxt, self.nm);
+            let pat = Pattern::<T>::parse(&txt).expect("pattern pool must parse");
+            let mut vars = Vec::new();
+            pattern_vars(&pat, &mut vars);
+            let substs = match guard(|| ematch_all(eg, &pat)) {
+                Ok(s) => s,
+                Err(p) => { self.stats.panics += 1; self.finding("C05", "ematch_all panics", key, path, step, &site_key(&p), json!({"msg": p.msg, "pattern": ptxt})); return; }
+            };
+            for sb in &substs {
+                self.stats.matches += 1;
+                if vars.iter().any(|v| !sb.contains_key(v)) {
+                    self.finding("C05", "a pattern variable is not bound", key, path, step, "", json!({"pattern": ptxt}));
+                    return;
+                }
+                let r = guard(|| instantiate(&pat, sb, &reps).map(|t| (t.to_string(), lookup_rec_expr(&t, eg).is_some())));
+                match r {
+                    Ok(Some((_, true))) => {}
+                    Ok(Some((t, false))) => { self.finding("C05", "instantiated match is not represented", key, path, step, "", json!({"pattern": ptxt, "instance": t})); return; }
+                    Ok(None) => { self.finding("C05", "a matched class has no finite term", key, path, step, "", json!({"pattern": ptxt})); return; }
+                    Err(p) => { self.stats.panics += 1; self.finding("C05", "panic while looking up an instantiated match", key, path, step, &site_key(&p), json!({"msg": p.msg, "pattern": ptxt})); return; }
+                }
+            }
+        }
+        for mtxt in MULTIPATTERNS.iter() {
+            let txt = concrete(mtxt, self.nm);
+            let mp = match MultiPattern::<T>::parse(&txt) { Ok(m) => m, Err(_) => continue };
+            let Ok(res) = guard(|| N::multi(eg, &mp)) else {
+                self.stats.panics += 1;
+                self.finding("C05", "multi_ematch panics", key, path, step, "", json!({"pattern": mtxt}));
+                return;
+            };
+            let Some(substs) = res else { break };
+            // clauses, re-parsed one by one to get at their structure
+            let clauses: Vec<(String, Pattern<T>)> = txt.split(',').map(|c| {
+                let v: Vec<&str> = c.split("==").collect();
+                (v[0].trim()[1..].to_string(), Pattern::<T>::parse(v[1]).unwrap())
+            }).collect();
+            for sb in &substs {
+                self.stats.matches += 1;
+                for (v, rhs) in &clauses {
+                    let mut vars = vec![v.clone()];
+                    pattern_vars(rhs, &mut vars);
+                    if vars.iter().any(|x| !sb.contains_key(x)) {
+                        self.finding("C05", "a multi-pattern variable is not bound", key, path, step, "", json!({"pattern": mtxt}));
+                        return;
+                    }
+                    let Pattern::ENode(n, ch) = rhs else { continue };
+                    let mut node = n.clone();
+                    for (slot, c) in node.applied_id_occurrences_mut().into_iter().zip(ch.iter()) {
+                        let Pattern::PVar(cv) = c else { continue };
+                        *slot = sb[cv].clone();
+                    }
+                    let r = guard(|| eg.lookup(&node).map(|x| eg.eq(&x, &sb[v])));
+                    match r {
+                        Ok(Some(true)) => {}
+                        Ok(other) => { self.finding("C05", "multi-pattern equation does not hold between the bound classes", key, path, step, "", json!({"pattern": mtxt, "clause_var": v, "lookup": format!("{other:?}")})); return; }
+                        Err(p) => { self.stats.panics += 1; self.finding("C05", "panic while checking a multi-pattern equation", key, path, step, &site_key(&p), json!({"msg": p.msg, "pattern": mtxt})); return; }
+                    }
+                }
+            }
+        }
+        let after = (progress_of(eg), eg.total_number_of_nodes());
+        if before != after {
+            self.finding("C05", "matching changed the e-graph", key, path, step, "", json!({"before": format!("{before:?}"), "after": format!("{after:?}")}));
+        }
+    }
+
+    fn readd<N: AnKind>(
         &mut self,
         spec: &SpecObs,
         obs: &ImplObs,
-        eg: &mut EGraph<T>,
+        eg: &mut EGraph<T, N>,
         key: &[usize],
         path: &[(usize, bool)],
         step: usize,
@@ -600,12 +808,15 @@ fn main() {
                                 let path: Vec<(usize, bool)> =
                                     ord.iter().enumerate().map(|(p, o)| (key2[*o], (flips >> p) & 1 == 1)).collect();
                                 let mut pr = PathRun { ctx: &ctx2, nm: &nm, us_exprs: &us_exprs, pool_exprs: &pool_exprs, mode, findings: Vec::new(), stats: Stats::default() };
-                                let fp = pr.run(&path);
+                                let fp = if count % 2 == 0 { pr.run::<()>(&path) } else { pr.run::<SizeDepth>(&path) };
                                 stats.paths += pr.stats.paths;
                                 stats.steps += pr.stats.steps;
                                 stats.panics += pr.stats.panics;
                                 stats.comparisons += pr.stats.comparisons;
                                 stats.readds += pr.stats.readds;
+                                stats.extractions += pr.stats.extractions;
+                                stats.data += pr.stats.data;
+                                stats.matches += pr.stats.matches;
                                 out_f.extend(pr.findings);
                                 if let Some(fp) = fp {
                                     out_fp.push((kind.clone(), mode.to_string(), path, fp));
@@ -623,6 +834,9 @@ fn main() {
                 job_stats.panics += st.panics;
                 job_stats.comparisons += st.comparisons;
                 job_stats.readds += st.readds;
+                job_stats.extractions += st.extractions;
+                job_stats.data += st.data;
+                job_stats.matches += st.matches;
             }
             // C12 / C11: every linearisation and every naming of one state give one observation
             let mut c12 = 0;
@@ -660,6 +874,9 @@ fn main() {
             t.0.panics += job_stats.panics;
             t.0.comparisons += job_stats.comparisons;
             t.0.readds += job_stats.readds;
+            t.0.extractions += job_stats.extractions;
+            t.0.data += job_stats.data;
+            t.0.matches += job_stats.matches;
             t.1 += 1;
             t.2 += fps.len();
         }));
@@ -675,7 +892,7 @@ fn main() {
     println!(
         "{}",
         json!({"kind":"summary","universe": ctx.uni.name, "states": t.1, "paths": t.0.paths, "steps": t.0.steps,
-               "panics": t.0.panics, "comparisons": t.0.comparisons, "readds": t.0.readds,
+               "panics": t.0.panics, "comparisons": t.0.comparisons, "readds": t.0.readds, "extractions": t.0.extractions, "analysis_data_checked": t.0.data, "matches_checked": t.0.matches,
                "completed_paths": t.2, "findings": f.len(), "universe_terms": ctx.us.len()})
     );
 }
